@@ -17,6 +17,14 @@ def _take_ignored(
     return token
 
 
+def _is_indented(token: base.RawTokenModel) -> bool:
+    """Whether the line that starts with this token (a model's first token) is indented."""
+    from ..punctuation import Indent  # circular import
+    if isinstance(token, BlockComment):
+        return bool(token.indent)
+    return isinstance(token, Indent)
+
+
 def _claim_comment(
     current: Optional[BlockComment],
     token_store: base.TokenStore,
@@ -24,6 +32,7 @@ def _claim_comment(
     *,
     backwards: bool,
     ignore_if_already_claimed: bool,
+    indented: bool,
 ) -> Optional[BlockComment]:
     if current is not None:
         return current
@@ -43,6 +52,9 @@ def _claim_comment(
         return None
     comment = _take_ignored(succ(newline), succ, ignored)
     if not isinstance(comment, BlockComment):
+        return None
+    if bool(comment.indent) != indented:
+        # only comments in the same indentation class as the model are its leading / trailing comments
         return None
 
     if comment.claimed:
@@ -70,7 +82,8 @@ class SurroundingCommentsMixin(base.RawTreeModel):
             self.token_store,
             self.first_token,
             backwards=True,
-            ignore_if_already_claimed=ignore_if_already_claimed)
+            ignore_if_already_claimed=ignore_if_already_claimed,
+            indented=_is_indented(self.first_token))
         return self._leading_comment
 
     def unclaim_leading_comment(self) -> Optional[BlockComment]:
@@ -86,7 +99,8 @@ class SurroundingCommentsMixin(base.RawTreeModel):
             self.token_store,
             self.last_token,
             backwards=False,
-            ignore_if_already_claimed=ignore_if_already_claimed)
+            ignore_if_already_claimed=ignore_if_already_claimed,
+            indented=_is_indented(self.first_token))
         return self._trailing_comment
 
     def unclaim_trailing_comment(self) -> Optional[BlockComment]:
